@@ -159,30 +159,44 @@ def runRawLzma (f : Fields) : String :=
   match LzmaDecoder.new params (parseOptNat (f.get "ml")) with
   | .error e => s!"new:{verdictOf (Except.error e : Except Err Unit)}"
   | .ok d0 =>
-    let decode (d : LzmaDecoder) (dirty : Bool) (acc : List String) (h : String) (bad : Bool) : LzmaDecoder × Bool × List String :=
-      if dirty then (d, dirty, acc ++ ["unspec"])
+    -- `fst=<hex>,<hex>,…`: the state the REAL decoder was left in by its k-th failed decode (dumped by the
+    -- harness through the state hook).  The model, whose error path returns no object, reads it back
+    -- (`DState.ofBytes`), evaluates the safety invariant on it (`DState.checkInv`, sound for `DStateInv`:
+    -- C07State.checkInv_sound) and goes on from exactly that object instead of answering `unspec`.
+    let decode (d : LzmaDecoder) (dirty : Bool) (acc : List String) (fsts : List String) (h : String) (bad : Bool) :
+        LzmaDecoder × Bool × List String × List String :=
+      if dirty then (d, dirty, acc ++ ["unspec"], fsts)
       else
         let rd : Rd := { rem := (bytesOfHex h).getD [], bad := bad }
         match d.decompress rd {} with
         | (snk, .ok (d', rd')) =>
-          (d', false, acc ++ [s!"ok:{rd.rem.length - rd'.rem.length}:{outRepr snk.out.toList}"])
+          (d', false, acc ++ [s!"ok:{rd.rem.length - rd'.rem.length}:{outRepr snk.out.toList}"], fsts)
         | (snk, .error e) =>
-          (d, true, acc ++ [s!"{verdictOf (Except.error e : Except Err Unit)}:-:{outRepr snk.out.toList}"])
+          let tok := s!"{verdictOf (Except.error e : Except Err Unit)}:-:{outRepr snk.out.toList}"
+          match fsts with
+          | [] => (d, true, acc ++ [tok], [])
+          | fh :: rest =>
+            match (bytesOfHex fh).bind DState.ofBytes with
+            | none => (d, true, acc ++ [tok, "fst:unparsable"], rest)
+            | some s' =>
+              if s'.checkInv then ({ d with state := s' }, false, acc ++ [tok, "f" ++ stRepr s'.toBytes], rest)
+              else (d, true, acc ++ [tok, "fst:invariant-violated"], rest)
+    let fsts0 := if (f.get "fst").isEmpty then [] else (f.get "fst").splitOn ","
     let ops := (f.get "ops").splitOn ";"
-    let (_, _, outs) := ops.foldl (init := (d0, false, ([] : List String))) fun (d, dirty, acc) op =>
+    let (_, _, outs, _) := ops.foldl (init := (d0, false, ([] : List String), fsts0)) fun (d, dirty, acc, fsts) op =>
       match op.splitOn ":" with
-      | ["d", h] => decode d dirty acc h false
-      | ["df", h] => decode d dirty acc h true      -- the source fails where the data ends
-      | ["st"] => (d, dirty, acc ++ [if dirty then "unspec" else stReprOf [] d.state])
+      | ["d", h] => decode d dirty acc fsts h false
+      | ["df", h] => decode d dirty acc fsts h true      -- the source fails where the data ends
+      | ["st"] => (d, dirty, acc ++ [if dirty then "unspec" else stReprOf [] d.state], fsts)
       | ["r"] =>
         match d.reset none with
-        | .ok d' => (d', false, acc ++ ["r"])
-        | .error _ => (d, dirty, acc ++ ["panic"])
+        | .ok d' => (d', false, acc ++ ["r"], fsts)
+        | .error _ => (d, dirty, acc ++ ["panic"], fsts)
       | ["rs", v] =>
         match d.reset (some (parseOptNat v)) with
-        | .ok d' => (d', false, acc ++ ["r"])
-        | .error _ => (d, dirty, acc ++ ["panic"])
-      | _ => (d, dirty, acc)
+        | .ok d' => (d', false, acc ++ ["r"], fsts)
+        | .error _ => (d, dirty, acc ++ ["panic"], fsts)
+      | _ => (d, dirty, acc, fsts)
     "new:ok " ++ " ".intercalate outs
 
 def runRawLzma2 (f : Fields) : String :=
